@@ -426,3 +426,33 @@ def check_inv_link(facts, rep):
         rep.violation('E7b.K8-inv-link', inst, 'InvLink::mirror maps a crossing pair to %s: both sides must be mirrored, otherwise inv_x of a mirrored crossing is not a crossing of the mirrored link' % pair[0], where=mb.where())
     else:
         rep.indet('E7b.K8: InvLink::mirror outside the recognised fragment: %s / %s' % (rr, pair))
+
+
+def check_sym_base_point(facts, rep):
+    """K9: the reduced involutive complex is based at the *axis* point of the InvLink (a tau-fixed edge, asserted on-axis by
+    InvLink::new): SymTngBuilder::new hands `l.base_pt()` to the inner builder when reduced and None otherwise. Any other
+    edge (e.g. the first edge of the first crossing, as the ordinary builder does) gives a base point that tau moves, and
+    the reduced build fails or depends on the listing order of the crossings."""
+    b = facts.bodies.get(B + 'new')
+    if b is None:
+        rep.indet('E7b.K9: SymTngBuilder::new not found')
+        return
+    rep.saw(b)
+
+    def dk(t):
+        return re.sub(r'#\d+\.\d+', '', show(t, -1000)).replace('&', '').replace('*', '')
+    got = {}
+    for p in SymEx(b, havoc_loops=True, max_paths=5000).run():
+        if p.end != 'return':
+            continue
+        red = next((e.value != 0 for e in p.branches() if dk(e.term) == 'arg4'), None)
+        for e in p.calls():
+            if e.name.endswith('TngComplexBuilder::<R>::new') and len(e.args) == 4:
+                got.setdefault(red, set()).add(dk(e.args[3]))
+    inst = 'SymTngBuilder::new|reduced => based at the axis point of the involutive link'
+    if got == {True: {'base_pt(arg1)'}, False: {'Option::None{}'}}:
+        rep.ok('E7b.K9-axis-base-point', inst, 'if reduced { l.base_pt() } else { None }')
+    elif set(got) == {True, False} and got[False] == {'Option::None{}'} and all(re.match(r'[a-z_]+\((link\()?arg1\)?\)$', x) for x in got[True]):
+        rep.violation('E7b.K9-axis-base-point', inst, 'the reduced symmetric builder is based at %s instead of the axis point l.base_pt(): tau does not fix that edge in general' % sorted(got[True]), where=b.where())
+    else:
+        rep.indet('E7b.K9: SymTngBuilder::new passes %s' % got)
